@@ -524,6 +524,13 @@ class Extractor(object):
             return True, env, ()
         if isinstance(s, ast.Assign):
             v = E(s.value)
+            if len(s.targets) > 1 and self._fresh(v):
+                # a = b[k] = {}   : one object, give it one identity
+                names = [t.id for t in s.targets if isinstance(t, ast.Name)]
+                if names:
+                    self._alloc += 1
+                    v = ("local", names[0], self._alloc, v)
+                    self.locals_alloc[(names[0], self._alloc)] = v
             for t in s.targets:
                 self.bind(t, v, env, guards, loops, s)
             return True, env, ()
